@@ -107,6 +107,33 @@ def run(ctx):
                 ctx.violation(RC, k + "|undeferred-cycle", "the cycle source created by create_source is returned without passing through defer_tick: a tick cycle could be closed within the same tick",
                               b.loc(bb))
 
+    # ---- the initial value of a tick cycle is visible in the first tick only
+    RI = ctx.rule("C30.initial", "create_source_with_initial: the initial value is merged only behind a first-tick gate (filter_if(optional_first_tick)), or as the fallback of an always-present singleton", floor=3)
+    for d, b in sorted(c.bodies.items()):
+        fn = c.fns.get(d)
+        if not fn or c.is_test_path(d) or b.kind == "Closure" or fn["name"] != "create_source_with_initial":
+            continue
+        imp = c.impls.get(fn.get("impl") or "", {})
+        k = "hydro_lang|" + fn_key(c, b)
+        init_local = 2
+        uses = []
+        for bb, t in b.calls():
+            for i, a in enumerate(t.get("a", [])):
+                p = op_place(a)
+                if p is not None and isinstance(p, int) and _copy_of(b, p, init_local):
+                    uses.append((bb, t, i))
+        ctx.inst(RI, k, sites=len(uses), sample={"initial_flows_into": [(t.get("f") or {}).get("name") for _bb, t, _i in uses], "self": imp.get("self", "")[:80]})
+        if not uses:
+            ctx.violation(RI, k + "|initial-unused", "the initial value is never used", b.loc())
+        for bb, t, i in uses:
+            nm = (t.get("f") or {}).get("name")
+            if nm == "filter_if" and i == 0 and len(t["a"]) >= 2 and _derives_from_call(b, t["a"][1], "optional_first_tick"):
+                continue
+            if nm == "unwrap_or" and i == 1 and "singleton::Singleton<" in imp.get("self", ""):
+                continue      # a singleton always has a previous value after the first tick: the initial value is only ever the first tick's fallback
+            ctx.violation(RI, k + "|initial-not-gated|" + str(nm), "the initial value of the tick cycle flows into `%s` without the first-tick gate: whenever the previous tick left nothing, the initial "
+                          "value reappears in a later tick" % nm, b.loc(bb))
+
     if ctx.tier == "thorough":
         # independent cross-check of the solver by the real type checker: compile-fail witnesses with compiling twins
         import witness
@@ -149,3 +176,23 @@ def _node_arm(b, bb):
                     if best is None or b.dominates(best[1], tgt):
                         best = (variants.get(val), tgt)
     return best[0] if best else None
+
+
+def _derives_from_call(b, op, name, depth=0):
+    p = op_place(op)
+    if p is None or depth > 8:
+        return False
+    for bb, idx, rv in b.defs_of(pl_local(p)):
+        if idx == "term":
+            f = rv.get("f") or {}
+            if f.get("name") == name:
+                return True
+            if any(_derives_from_call(b, a, name, depth + 1) for a in rv.get("a", [])[:2]):
+                return True
+        elif rv["k"] in ("use", "cast"):
+            if _derives_from_call(b, rv["ops"][0], name, depth + 1):
+                return True
+        elif rv["k"] in ("ref", "refmut"):
+            if _derives_from_call(b, {"cp": rv["p"]}, name, depth + 1):
+                return True
+    return False
